@@ -87,6 +87,12 @@ int vf_run_case(Src &s, Report &r) {
 	std::vector<PageDef> pages;
 	bool interacting = false;
 	uint8_t hdr_tmpl[32]; for (int i = 0; i < 32; ++i) hdr_tmpl[i] = (uint8_t) s.range(0x20, 0x7E);
+	// half of the networks show the page number in the header, as real ones do: only then can the decoder compare the headers of
+	// successive pages (its channel change heuristic in store_lop); the rest of the text then has no digits, so that the page number
+	// is found where it is. The choice is taken from the template bytes under the clock, which the clock digits overwrite anyway.
+	bool pn_in_header = hdr_tmpl[31] & 1; unsigned pn_off = hdr_tmpl[30] % 21;
+	if (pn_in_header) for (int i = 0; i < 24; ++i) if (hdr_tmpl[i] >= '0' && hdr_tmpl[i] <= '9') hdr_tmpl[i] = (uint8_t) ('A' + hdr_tmpl[i] - '0');
+	if (pn_in_header) r.cls("page-number-in-header");
 	std::set<unsigned> used;
 	for (unsigned m = 0; m < nmag; ++m) {
 		unsigned mag = 1 + (m + s.pick(8)) % 8;
@@ -106,6 +112,7 @@ int vf_run_case(Src &s, Report &r) {
 			p.national = s.pick(7);
 			p.c5 = s.chance(1, 10); p.c6 = !p.c5 && s.chance(1, 10);
 			memcpy(p.header, hdr_tmpl, 32);
+			if (pn_in_header) { p.header[pn_off] = (uint8_t) ('0' + mag); p.header[pn_off + 1] = (uint8_t) ('0' + (p.page >> 4)); p.header[pn_off + 2] = (uint8_t) ('0' + (p.page & 15)); }
 			// clock bytes vary
 			for (int i = 24; i < 32; ++i) p.header[i] = (uint8_t) s.range(0x30, 0x39);
 			for (int y = 1; y <= 24; ++y) { p.have[y] = !s.chance(1, 4); if (p.have[y]) { ttxgen::gen_row(s, p.row[y], richness, &interacting); for (int i = 0; i < 40; ++i) if (p.row[y][i] == 0x1B) p.row[y][i] = 0x20; } }
